@@ -367,6 +367,7 @@ Definition ns_step (x : ns) (o : nsop) : outcome * ns :=
   | ReadNs m => read_ns x m
   | WriteNs p => write_ns x p
   | NsSetMaxsize n => (ONone, mkNS (ns_bs x) n (calc_msgsize_maxsize n))
+  | NsFlush => let '(out, s') := flush (ns_bs x) in (out, with_bs x s')
   end.
 
 (* wside: the history belongs to a writer (observe the send side) *)
